@@ -1322,7 +1322,8 @@ pub fn miri_main(cfg: &Cfg) {
     "C11" => vec![20],
     "C12" => vec![1],
     "C15" => vec![10],
-    _ => (0..FAMILIES).collect(),
+    // worker families spin on the pool: under the interpreter they mostly hit the wall-clock watchdog
+    _ => (0..FAMILIES).filter(|f| !matches!(f, 12 | 13 | 15..=18 | 21..=23)).collect(),
   };
   for i in 0..cfg.n(2, 3) {
     // every other scenario is the merge_all family (queued inners + unsubscribe: the richest lock graph)
@@ -1338,6 +1339,11 @@ pub fn miri_main(cfg: &Cfg) {
       s.threads[0].push(TOp::Unsub(0));
     }
     let o = run_scen_free(&s);
+    if o.baton.timed_out {
+      // wall-clock watchdog under the (slow) interpreter: no verdict
+      results.push(json!({"scenario": s.name, "events": o.evs.len(), "violation": null, "inconclusive": "a thread did not finish within the wall-clock watchdog under the interpreter"}));
+      continue;
+    }
     let v = universal(&o).or_else(|| match (cfg.prop.as_str(), &s.kind) {
       // the full C10 oracle (common order, merge_all oracle, linearizability, share) also under Miri's scheduler
       ("C10", _) => super::c10::oracle(&o, &s),
